@@ -57,7 +57,13 @@ pub struct KnownMsg {
     pub used: bool,
 }
 
+/// wallet index of the predicate-owned coins and messages
+pub const PRED: usize = usize::MAX;
+
 pub struct World {
+    /// an always-true predicate and the address it owns
+    pub predicate: Vec<u8>,
+    pub pred_owner: Address,
     pub flags: u64,
     pub params: ConsensusParameters,
     pub forbid: bool,
@@ -143,6 +149,8 @@ impl World {
                 (s, a)
             })
             .collect();
+        let predicate: Vec<u8> = vec![op::ret(RegId::ONE)].into_iter().collect();
+        let pred_owner = Input::predicate_owner(&predicate);
         let assets = vec![AssetId::BASE, AssetId::new(bytes32(rng))];
         let mut db = Database::<OnChain>::in_memory();
         let relayer = Database::<Relayer>::in_memory();
@@ -166,7 +174,8 @@ impl World {
                 .unwrap();
             let n_coins = rng.range(5, 10);
             for k in 0..n_coins {
-                let wallet = rng.below(3) as usize;
+                let wallet = if rng.chance(1, 4) { PRED } else { rng.below(3) as usize };
+                let owner_addr = if wallet == PRED { pred_owner } else { wallets[wallet].1 };
                 let asset = if rng.chance(1, 5) { assets[1] } else { assets[0] };
                 let amt = if flags & F_HUGEFEE != 0 && k < 3 && asset == assets[0] {
                     u64::MAX - rng.below(2)
@@ -175,7 +184,7 @@ impl World {
                 };
                 let utxo = UtxoId::new(Bytes32::new(bytes32(rng)), rng.below(3) as u16);
                 let coin: CompressedCoin = CompressedCoinV1 {
-                    owner: wallets[wallet].1,
+                    owner: owner_addr,
                     amount: amt,
                     asset_id: asset,
                     tx_pointer: TxPointer::new(BlockHeight::new(0), k as u16),
@@ -184,17 +193,17 @@ impl World {
                 tx.storage_as_mut::<Coins>().insert(&utxo, &coin).unwrap();
                 coins.push(KnownCoin { utxo, wallet, amount: amt, asset, used: false });
             }
-            let n_msgs = rng.range(2, 4);
+            let n_msgs = rng.range(3, 6);
             for _ in 0..n_msgs {
-                let wallet = rng.below(3) as usize;
+                let wallet = if rng.chance(1, 3) { PRED } else { rng.below(3) as usize };
                 let data = if rng.chance(1, 2) { vec![] } else { vec![0xab; rng.range(1, 6) as usize] };
                 let m: Message = MessageV1 {
                     sender: Address::new(bytes32(rng)),
-                    recipient: wallets[wallet].1,
+                    recipient: if wallet == PRED { pred_owner } else { wallets[wallet].1 },
                     nonce: Nonce::new(bytes32(rng)),
                     amount: amount(rng, 0),
                     data,
-                    da_height: (*rng.pick(&[0u64, 0, 0, 1, 3])).into(),
+                    da_height: (*rng.pick(&[0u64, 0, 0, 0, 1, 3])).into(),
                 }
                 .into();
                 tx.storage_as_mut::<Messages>().insert(m.nonce(), &m).unwrap();
@@ -203,6 +212,8 @@ impl World {
             tx.commit().unwrap();
         }
         World {
+            predicate,
+            pred_owner,
             flags,
             params,
             forbid: flags & F_NOFORBID == 0,
@@ -332,7 +343,12 @@ impl World {
         let mut fresh: Vec<KnownCoin> = vec![];
         for r in db.iter_all::<Coins>(None) {
             let (utxo, c) = r.unwrap();
-            if let Some(w) = self.wallets.iter().position(|x| &x.1 == c.owner()) {
+            let wi = if c.owner() == &self.pred_owner {
+                Some(PRED)
+            } else {
+                self.wallets.iter().position(|x| &x.1 == c.owner())
+            };
+            if let Some(w) = wi {
                 fresh.push(KnownCoin { utxo, wallet: w, amount: *c.amount(), asset: *c.asset_id(), used: false });
             }
         }
@@ -381,7 +397,10 @@ impl World {
     fn gen_huge_tx(&mut self, rng: &mut Rng) -> Option<Transaction> {
         use fuel_core_types::fuel_tx::{field::*, Chargeable};
         let ci = (0..self.coins.len()).find(|i| {
-            !self.coins[*i].used && self.coins[*i].amount > (1u64 << 63) && self.coins[*i].asset == self.assets[0]
+            !self.coins[*i].used
+                && self.coins[*i].wallet != PRED
+                && self.coins[*i].amount > (1u64 << 63)
+                && self.coins[*i].asset == self.assets[0]
         })?;
         let kc = self.coins[ci].clone();
         self.coins[ci].used = true;
@@ -415,7 +434,8 @@ impl World {
         }
         // a reverting script whose only input is a retryable message: it can be executed again
         // and again as far as the inputs are concerned - only ProcessedTransactions stops it
-        let retry_only = (0..self.msgs.len()).find(|i| !self.msgs[*i].used && !self.msgs[*i].msg.data().is_empty());
+        let retry_only = (0..self.msgs.len())
+            .find(|i| !self.msgs[*i].used && self.msgs[*i].wallet != PRED && !self.msgs[*i].msg.data().is_empty());
         if let (Some(mi), true) = (retry_only, rng.chance(1, 8)) {
             let km = self.msgs[mi].clone();
             let mut b = TransactionBuilder::script(vec![op::rvrt(RegId::ONE)].into_iter().collect(), vec![]);
@@ -499,6 +519,7 @@ impl World {
         // inputs
         let mut base_in: u128 = 0;
         let mut other_in: u128 = 0;
+        let mut has_pred = false;
         let n_in = rng.range(1, 3);
         let mut used_here: Vec<usize> = vec![];
         for j in 0..n_in {
@@ -514,13 +535,40 @@ impl World {
                     let km = self.msgs[mi].clone();
                     self.msgs[mi].used = true;
                     let amt = if rng.chance(1, 15) { km.msg.amount() + 1 } else { km.msg.amount() };
-                    b.add_unsigned_message_input(
-                        self.wallets[km.wallet].0,
-                        *km.msg.sender(),
-                        *km.msg.nonce(),
-                        amt,
-                        km.msg.data().clone(),
-                    );
+                    if km.wallet == PRED {
+                        has_pred = true;
+                        let inp = if km.msg.data().is_empty() {
+                            Input::message_coin_predicate(
+                                *km.msg.sender(),
+                                self.pred_owner,
+                                amt,
+                                *km.msg.nonce(),
+                                0,
+                                self.predicate.clone(),
+                                vec![],
+                            )
+                        } else {
+                            Input::message_data_predicate(
+                                *km.msg.sender(),
+                                self.pred_owner,
+                                amt,
+                                *km.msg.nonce(),
+                                0,
+                                km.msg.data().clone(),
+                                self.predicate.clone(),
+                                vec![],
+                            )
+                        };
+                        b.add_input(inp);
+                    } else {
+                        b.add_unsigned_message_input(
+                            self.wallets[km.wallet].0,
+                            *km.msg.sender(),
+                            *km.msg.nonce(),
+                            amt,
+                            km.msg.data().clone(),
+                        );
+                    }
                     base_in += amt as u128;
                     continue;
                 }
@@ -557,13 +605,27 @@ impl World {
             let kc = self.coins[ci].clone();
             self.coins[ci].used = true;
             let amt = if rng.chance(1, 20) { kc.amount.wrapping_add(1).max(1) } else { kc.amount };
-            b.add_unsigned_coin_input(
-                self.wallets[kc.wallet].0,
-                kc.utxo,
-                amt,
-                kc.asset,
-                Default::default(),
-            );
+            if kc.wallet == PRED {
+                has_pred = true;
+                b.add_input(Input::coin_predicate(
+                    kc.utxo,
+                    self.pred_owner,
+                    amt,
+                    kc.asset,
+                    Default::default(),
+                    0,
+                    self.predicate.clone(),
+                    vec![],
+                ));
+            } else {
+                b.add_unsigned_coin_input(
+                    self.wallets[kc.wallet].0,
+                    kc.utxo,
+                    amt,
+                    kc.asset,
+                    Default::default(),
+                );
+            }
             if kc.asset == self.assets[0] {
                 base_in += amt as u128;
             } else {
@@ -609,12 +671,25 @@ impl World {
         if other_in > 0 && rng.chance(1, 2) {
             b.add_output(Output::change(self.wallets[rng.below(3) as usize].1, 0, self.assets[1]));
         }
-        let tx: Transaction = if rng.chance(1, 20) {
+        let mut script = if rng.chance(1, 20) {
             // missing signatures
-            b.finalize_without_signature().into()
+            b.finalize_without_signature()
         } else {
-            b.finalize().into()
+            b.finalize()
         };
+        if has_pred {
+            use fuel_core_types::fuel_vm::{
+                checked_transaction::{CheckPredicateParams, EstimatePredicates},
+                interpreter::MemoryInstance,
+                predicate::EmptyStorage,
+            };
+            let _ = script.estimate_predicates(
+                &CheckPredicateParams::from(&self.params),
+                MemoryInstance::new(),
+                &EmptyStorage,
+            );
+        }
+        let tx: Transaction = script.into();
         let id = tx.id(&self.params.chain_id());
         for (idx, (w, amt, asset)) in fixed.iter().enumerate() {
             if *amt > 0 {
